@@ -2,6 +2,12 @@ import PV.Proofs.UnifySound
 import PV.Proofs.UnifyCex
 import PV.Proofs.UnifySem
 import PV.Proofs.UnifyComplete
+import PV.Proofs.MatchpyValue
+import PV.Proofs.MatchpyRepl
+import PV.Proofs.MatchpyInj
+import PV.Proofs.MatchpyWf
+import PV.Proofs.MatchpyLogic
+import PV.Generated.MatchpyOps
 /-
   C16 — pattern matching results are sound (the one-directional unifier of
   pymbolic/mapper/unifier.py; model: PV/Model/Unify.lean, tied to the code by the `unifier`
@@ -29,7 +35,13 @@ import PV.Proofs.UnifyComplete
   executable normal-form test used by the driver (and mirrored by the Python oracle) only accepts
   AC-equal trees.
 
-  Not covered by a theorem (independent oracles of harness/props/c16.py only): the matchpy bridge.
+  The matchpy BRIDGE (pymbolic/interop/matchpy; model PV/Model/Matchpy.lean, tied to the code by
+  the `matchpy-convert`, `matchpy-from`, `matchpy-order`, `matchpy-tofrom-replacement` streams and
+  by the flag table regenerated from the live classes) is the second half of this file: which trees
+  convert, the conversion round trip (exact on `bridgeNormal` trees; up to `BridgeEq` and with the
+  same value in general; four `…_cex` shapes that do not come back unchanged), soundness of the
+  declared commutative / associative / one-identity flags for the arithmetic meaning `evalC`, and
+  the multiplicity law of `ToFromReplacement`.  matchpy's matcher stays a trusted parameter.
 -/
 namespace PV.C16
 open PV PV.Unify
@@ -281,5 +293,303 @@ example :
 
 example : guards ["x"] (.nary .sum [.var "x", .var "a", .var "b"])
     (.nary .sum [.var "a", .var "b"]) = false := by rfl
+
+/-! ## The matchpy bridge -/
+
+section bridge
+open PV.Matchpy
+
+/-! ### the tie to the live classes (T-gen) -/
+
+/-- **The flag / arity table of the model is the table of the code**: `MOp.row` (class name,
+`arity`, `commutative`, `associative`, `one_identity`, operand fields, `_mapper_method`) equals the
+table regenerated from the live classes of `pymbolic.interop.matchpy` on every run. -/
+theorem flag_table_current : Generated.matchpyOps = opTable := by decide
+
+/-- the atom classes (`Scalar`, `Id`, `ComparisonOp`: dataclass fields, `_mapper_method`) and the
+three wildcard constructors (`min_count`, `fixed_size`) of the model are those of the code -/
+theorem atom_table_current :
+    Generated.matchpyAtoms = atomTable ∧ Generated.matchpyWild = wildTable := by decide
+
+/-- the `map_*` methods of the two mappers of the model are exactly those the code defines
+(as sets): every other node type is refused -/
+theorem handler_table_current :
+    (Generated.matchpyToHandlers.all (· ∈ toHandlers) && toHandlers.all (· ∈ Generated.matchpyToHandlers)
+      && Generated.matchpyFromHandlers.all (· ∈ fromHandlers)
+      && fromHandlers.all (· ∈ Generated.matchpyFromHandlers)) = true := by decide
+
+/-- **The declared flags, exactly**: an operation class is declared commutative iff it is declared
+associative iff it stands for one of the seven n-ary node types (`Sum`, `Product`, logical and
+bitwise `or` / `and` / `xor`); no class is declared one-identity. -/
+theorem flags_exactly (mo : MOp) :
+    mo.row.comm = mo.nary?.isSome ∧ mo.row.assoc = mo.nary?.isSome ∧ mo.row.oneId = false := by
+  cases mo <;> decide
+
+/-! ### which trees convert -/
+
+/-- **Which trees convert**: `ToMatchpyExpressionMapper` returns a term exactly for the trees that
+satisfy the syntactic predicate `convertible` (ints, bools, floats, variables, the seven n-ary
+operators other than `Min` / `Max`, the binary / unary operators, comparisons, conditionals,
+calls, subscripts, dot / star wildcards); every other node type is refused. -/
+theorem converts_iff (e : Expr) : (∃ t, toM e = .ok t) ↔ convertible e = true := toM_ok_iff e
+
+example : convertible (.nary .sum [.var "a", .subscript (.var "b") (.const (.int 1))]) = true := by rfl
+example : toM (.nary .min [.var "a"]) = .error .unsupported := by rfl
+example : toM (.lookup (.var "a") "n") = .error .notImplemented := by rfl
+example : toM (.nary .sum [.const (.str "s"), .nary .min []]) = .error .foreign := by rfl
+
+/-! ### the conversion round trip -/
+
+/-- **Round trip, exact** (partial: the decidable hypothesis `bridgeNormal`): a convertible tree
+without wildcards in which no operator declared associative is applied directly to an application
+of itself, the operands of every operator declared commutative are already in `list.sort()` order
+and every subscript index is a tuple comes back UNCHANGED.  The four excluded shapes are real
+(`roundtrip_flatten_cex`, `roundtrip_order_cex`, `roundtrip_index_cex`, `roundtrip_wildcard_cex`). -/
+theorem roundtrip_exact_partial (e : Expr) (h : bridgeNormal e = true) : roundtrip e = .ok e := by
+  obtain ⟨t, ht, hf⟩ := (roundtrip_exact_aux e.size).1 e (Nat.le_refl _) h
+  simp [roundtrip, ht, hf, bind, Except.bind]
+
+example : bridgeNormal (.nary .sum [.call (.var "f") [.var "a"], .const (.int 3),
+    .subscript (.var "a") (.tuple [.var "i"]), .var "b"]) = true := by decide
+
+/-- **Round trip, every convertible tree**: a tree without wildcards that converts always comes
+back, and what comes back differs from it at most by `BridgeEq`: operand order of the operators the
+bridge declares commutative, merging of nested applications of an operator it declares
+associative, and tuple-writing of subscript indices. -/
+theorem roundtrip_equiv (e : Expr) (hc : convertible e = true) (hw : hasWild e = false) :
+    ∃ e', roundtrip e = .ok e' ∧ BridgeEq e e' := by
+  obtain ⟨t, ht⟩ := (toM_ok_iff e).2 hc
+  obtain ⟨e', hf, hrel⟩ := (roundtrip_aux e.size).1 e (Nat.le_refl _) t ht hw
+  exact ⟨e', by simp [roundtrip, ht, hf, bind, Except.bind], hrel⟩
+
+section
+set_option linter.unusedSectionVars false
+universe u
+variable {K : Type u} [Field K] [CharZero K]
+
+/-- **Round trip, same value**: what comes back has the value of the original (`evalC`, every field
+of characteristic 0, every assignment) — in particular the flattening matchpy performs is harmless
+for the arithmetic meaning. -/
+theorem roundtrip_value (ρ : String → K) (e : Expr) (hc : convertible e = true)
+    (hw : hasWild e = false) : ∃ e', roundtrip e = .ok e' ∧ evalC ρ e' = evalC ρ e := by
+  obtain ⟨e', h, hrel⟩ := roundtrip_equiv e hc hw
+  exact ⟨e', h, (BridgeEq.evalC_eq ρ hrel).symm⟩
+
+/-- everything `BridgeEq` identifies has the same value -/
+theorem bridgeEq_value (ρ : String → K) {a b : Expr} (h : BridgeEq a b) : evalC ρ a = evalC ρ b :=
+  BridgeEq.evalC_eq ρ h
+
+/-! ### the declared flags are sound for the arithmetic meaning -/
+
+/-- **commutative only where the value is order-independent**: every class declared commutative
+stands for an n-ary node type whose value does not depend on the order of its operands. -/
+theorem commutative_flag_sound (mo : MOp) (h : mo.row.comm = true) :
+    ∃ o, mo.nary? = some o ∧ ∀ (ρ : String → K) (cs ds : List Expr), cs.Perm ds →
+      evalC ρ (.nary o cs) = evalC ρ (.nary o ds) := by
+  have := (flags_exactly mo).1
+  rw [h] at this
+  obtain ⟨o, ho⟩ := Option.isSome_iff_exists.1 this.symm
+  exact ⟨o, ho, fun ρ _ _ hp => evalC_bridge_perm ρ (by simp [bridgeAC, nary?_mopOfNary ho]) hp⟩
+
+/-- **associative only where regrouping preserves the value**: every class declared associative
+stands for an n-ary node type for which merging a nested application into its parent (what
+matchpy's constructor does) keeps the value. -/
+theorem associative_flag_sound (mo : MOp) (h : mo.row.assoc = true) :
+    ∃ o, mo.nary? = some o ∧ ∀ (ρ : String → K) (xs ys zs : List Expr),
+      evalC ρ (.nary o (xs ++ .nary o ys :: zs)) = evalC ρ (.nary o (xs ++ ys ++ zs)) := by
+  have := (flags_exactly mo).2.1
+  rw [h] at this
+  obtain ⟨o, ho⟩ := Option.isSome_iff_exists.1 this.symm
+  exact ⟨o, ho, fun ρ xs ys zs =>
+    evalC_bridge_flat ρ (by simp [bridgeAC, nary?_mopOfNary ho]) xs ys zs⟩
+
+/-- **one-identity only where a one-operand node means its operand**: no class declares it (so
+`Sum((a,))` stays a one-operand sum) … -/
+theorem one_identity_flag_sound (mo : MOp) (h : mo.row.oneId = true) :
+    ∃ o, mo.nary? = some o ∧ ∀ (ρ : String → K) (x : Expr), evalC ρ (.nary o [x]) = evalC ρ x := by
+  rw [(flags_exactly mo).2.2] at h; cases h
+
+/-- … although for sums and products the flag would be sound: a one-operand sum / product has the
+value of its operand -/
+theorem one_identity_would_be_sound (ρ : String → K) (x : Expr) :
+    evalC ρ (.nary .sum [x]) = evalC ρ x ∧ evalC ρ (.nary .prod [x]) = evalC ρ x :=
+  ⟨evalC_single ρ (Or.inl rfl) x, evalC_single ρ (Or.inr rfl) x⟩
+
+/-- **what matchpy does with the flags keeps the meaning**: building an application of a flagged
+class from operand terms (flatten, sort) yields a term whose image has the value of the n-ary node
+over the images of the operands — this is why a match found by matchpy modulo the declared
+commutativity / associativity is a match for pymbolic's meaning. -/
+theorem mk_preserves_value (ρ : String → K) {mo : MOp} {o : NaryOp} (hn : mo.nary? = some o)
+    {ts : List MTerm} {es : List Expr} (hes : fromML ts = .ok es) :
+    ∃ e', fromM (mk mo ts) = .ok e' ∧ evalC ρ e' = evalC ρ (.nary o es) := by
+  obtain ⟨e', h, hrel⟩ := mk_value hn hes
+  exact ⟨e', h, (BridgeEq.evalC_eq ρ hrel).symm⟩
+
+/-- the flag theorems are not vacuous: `Sum` is declared commutative and `2 + x = x + 2` -/
+example (ρ : String → K) : MOp.sum.row.comm = true ∧
+    evalC ρ (.nary .sum [.const (.int 2), .var "x"]) = evalC ρ (.nary .sum [.var "x", .const (.int 2)]) :=
+  ⟨rfl, evalC_bridge_perm ρ (by decide) (List.Perm.swap _ _ _)⟩
+
+end
+
+/-! ### the flags on `LogicalOr` / `LogicalAnd`, for the evaluator's meaning
+
+`evalC` gives the logical and bitwise operators no value, so for them the three flag theorems above
+hold trivially.  For the two logical operators the statement is made against `den` (the exact
+Python meaning the evaluator is proved to compute, C02): the flags are sound when every operand
+evaluates and has a truth value — and not beyond, because `any` / `all` short-circuit. -/
+
+/-- **commutative / associative are sound for `LogicalOr` / `LogicalAnd`** (partial: the
+hypothesis `truths env … = .ok _`, computable: every operand evaluates without an exception to a
+value with a truth value): reordering the operands, and merging a nested application into its
+parent, keep the evaluator's value. -/
+theorem logical_flags_den_partial (env : Env) {o : NaryOp} (ho : isLogical o) :
+    (∀ (cs ds : List Expr) (bs : List Bool), truths env cs = .ok bs → cs.Perm ds →
+      den env (.nary o cs) = den env (.nary o ds)) ∧
+    (∀ (xs ys zs : List Expr) (bs : List Bool), truths env (xs ++ ys ++ zs) = .ok bs →
+      den env (.nary o (xs ++ .nary o ys :: zs)) = den env (.nary o (xs ++ ys ++ zs))) :=
+  ⟨fun _ _ _ h hp => den_logical_perm ho h hp, fun xs ys zs _ h => den_logical_flat ho xs ys zs h⟩
+
+/-- non-vacuity: `x or 0 or y` with `x = 0`, `y = 2` -/
+example : truths [("x", .int 0), ("y", .int 2)] [.var "x", .const (.int 0), .var "y"]
+    = .ok [false, false, true] := by rfl
+
+/-- **the flag is not sound beyond that**: `True or 1/0` is `True`, `1/0 or True` raises — the
+sorting matchpy performs on an operation declared commutative can turn a tree that evaluates into
+one that raises (the property allows the reordering; the meaning is kept only on operands that
+evaluate) -/
+theorem logical_commutative_den_cex :
+    den [] (.nary .lor [.const (.bool true), .bin .quot (.const (.int 1)) (.const (.int 0))])
+      = .ok (.bool true) ∧
+    den [] (.nary .lor [.bin .quot (.const (.int 1)) (.const (.int 0)), .const (.bool true)])
+      = .error .zeroDiv := by
+  constructor <;> rfl
+
+/-- **does not come back: nested associative operator** — `(a + b) + c` comes back as `a + b + c` -/
+theorem roundtrip_flatten_cex :
+    roundtrip (.nary .sum [.nary .sum [.var "a", .var "b"], .var "c"])
+      = .ok (.nary .sum [.var "a", .var "b", .var "c"]) := by rfl
+
+/-- **does not come back: operand order** — `b + a` comes back as `a + b` (allowed by the property) -/
+theorem roundtrip_order_cex :
+    roundtrip (.nary .sum [.var "b", .var "a"]) = .ok (.nary .sum [.var "a", .var "b"]) := by rfl
+
+/-- **does not come back: index** — `a[b]` comes back as `a[(b,)]` (allowed by the property) -/
+theorem roundtrip_index_cex :
+    roundtrip (.subscript (.var "a") (.var "b"))
+      = .ok (.subscript (.var "a") (.tuple [.var "b"])) := by rfl
+
+/-- **does not come back: wildcards** — a dot / star wildcard converts to a matchpy wildcard, which
+`FromMatchpyExpressionMapper` cannot map (`AttributeError: 'Wildcard' object has no attribute
+'_mapper_method'`) -/
+theorem roundtrip_wildcard_cex :
+    convertible (.nary .sum [.dotWild "w_", .var "a"]) = true ∧
+    roundtrip (.nary .sum [.dotWild "w_", .var "a"]) = .error .attrError := by
+  constructor <;> rfl
+
+/-- `list.sort()` as modelled only reorders, whatever `<` is … -/
+theorem sort_is_permutation (ts : List MTerm) : (pySort MTerm.lt ts).Perm ts :=
+  pySort_perm MTerm.lt ts
+
+/-- … and the bridge's `<` is NOT an order: a dot wildcard is below a star wildcard and vice versa
+(`Wildcard.__lt__` of matchpy), so the operand order of a pattern depends on the order it was
+written in — which is why `pySort` models CPython's algorithm and not "the sorted list" -/
+example : MTerm.lt (.wild .dot (some "d_")) (.wild .star (some "s_")) = true ∧
+    MTerm.lt (.wild .star (some "s_")) (.wild .dot (some "d_")) = true ∧
+    pySort MTerm.lt [.wild .dot (some "d_"), .wild .star (some "s_")]
+      = [.wild .star (some "s_"), .wild .dot (some "d_")] ∧
+    pySort MTerm.lt [.wild .star (some "s_"), .wild .dot (some "d_")]
+      = [.wild .dot (some "d_"), .wild .star (some "s_")] := by
+  refine ⟨by rfl, by rfl, by rfl, by rfl⟩
+
+/-! ### `ToFromReplacement`: every captured operand reaches the callback with its multiplicity -/
+
+/-- `ToFromReplacement(f, to, from)(**kwargs)` is `to(f(**converted))` -/
+theorem toFromReplacement_spec (f : List (String × PArg) → Expr) (kwargs : List (String × MArg))
+    {kw : List (String × PArg)} (h : convArgs kwargs = .ok kw) :
+    toFromReplacement f kwargs = toM (f kw) := by
+  simp [toFromReplacement, h, bind, Except.bind]
+
+/-- a single captured term and a captured tuple (sequence wildcard below a non-commutative
+operation) reach the callback as their images, in order (full strength) -/
+theorem replacement_one_tuple {t : MTerm} {e : Expr} {ts : List MTerm} {es : List Expr}
+    (ht : fromM t = .ok e) (hts : fromML ts = .ok es) :
+    convArg (.one t) = .ok (.one e) ∧ convArg (.tuple ts) = .ok (.tuple es) := by
+  simp [convArg, ht, hts, bind, Except.bind, pure, Except.pure]
+
+/-- **the multiplicity law** (partial: the decidable hypothesis `pairwiseNe es` — the images of
+the keys of the captured `Multiset` are pairwise different under Python `==`): the callback
+receives the image of every captured operand with the multiplicity it was captured with.  This is
+the statement behind the oracle key `matchpy-replacement-instantiation-differs`; the hypothesis
+holds for everything matchpy captures from a converted subject (distinct keys of a `Multiset` of
+subject terms have distinct images), and fails only for keys told apart by a `variable_name`
+(`replacement_multiset_overwrite_cex`). -/
+theorem replacement_receives_all_partial (items : List (MTerm × Nat)) (es : List Expr)
+    (hes : fromML (items.map (·.1)) = .ok es) (hd : pairwiseNe es = true)
+    (hpos : ∀ n ∈ items.map (·.2), n > 0) :
+    convArg (.multiset items) = .ok (.multiset (es.zip (items.map (·.2)))) := by
+  have h := convItems_distinct items [] es hes (by simpa using hd)
+  simp only [convArg, h, bind, Except.bind, pure, Except.pure, List.nil_append]
+  rw [filter_pos_zip hpos]
+
+/-- **the multiplicity law for what matchpy captures**: the keys of a captured `Multiset` are
+pairwise different terms (`pairwiseNeM`, decidable; a multiset has each key once); when they are
+well-formed name-free terms (`MTerm.wf`, decidable: what a converted subject consists of), their
+images are pairwise different as well (`fromM` reflects `==`), so the callback receives the image
+of every captured operand with its multiplicity — no further hypothesis. -/
+theorem replacement_receives_all_wf (items : List (MTerm × Nat))
+    (hwf : ∀ t ∈ items.map (·.1), t.wf = true) (hkeys : pairwiseNeM (items.map (·.1)) = true)
+    (hpos : ∀ n ∈ items.map (·.2), n > 0) :
+    ∃ es, fromML (items.map (·.1)) = .ok es ∧
+      convArg (.multiset items) = .ok (.multiset (es.zip (items.map (·.2)))) := by
+  have hall : ∀ ts : List MTerm, (∀ t ∈ ts, t.wf = true) → ∃ es, fromML ts = .ok es := by
+    intro ts
+    induction ts with
+    | nil => intro _; exact ⟨[], rfl⟩
+    | cons t ts ih =>
+      intro h
+      obtain ⟨e, he, _, _⟩ := MTerm.wf_spec (h t (by simp))
+      obtain ⟨es, hes⟩ := ih (fun u hu => h u (by simp [hu]))
+      exact ⟨e :: es, fromML_cons_ok he hes⟩
+  obtain ⟨es, hes⟩ := hall _ hwf
+  exact ⟨es, hes, replacement_receives_all_partial items es hes
+    (wf_images_distinct _ es hwf hes hkeys) hpos⟩
+
+/-- **a converted subject consists of well-formed name-free terms**: every term
+`ToMatchpyExpressionMapper` builds from a tree without wildcards satisfies `MTerm.wf`, so
+`replacement_receives_all_wf` applies to whatever matchpy captures out of it. -/
+theorem converted_subject_wf {e : Expr} {t : MTerm} (h : toM e = .ok t) (hw : hasWild e = false) :
+    t.wf = true := toM_wf h hw
+
+/-- the terms of a converted subject are well-formed and name-free; a term that carries a
+`variable_name` is not -/
+example : (match toM (.nary .sum [.bin .pow (.var "b") (.const (.int 2)),
+      .call (.var "f") [.var "a", .subscript (.var "a") (.const (.int 1))]]) with
+    | .ok t => t.wf | .error _ => false) = true := by decide
+example : MTerm.wf (.op .variable [.id "a" none] (some "q")) = false := by decide
+
+/-- non-vacuity: `{b: 2, c: 1}` captured, `{b: 2, c: 1}` received -/
+example : convArg (.multiset [(.op .variable [.id "b" none] none, 2),
+      (.op .variable [.id "c" none] none, 1)])
+    = .ok (.multiset [(.var "b", 2), (.var "c", 1)]) := by rfl
+
+/-- **the law is false without the hypothesis**: the dict comprehension
+`{from_matchpy_expr(expr): count …}` OVERWRITES — two keys with the same image (here: the same
+variable, once carrying a `variable_name`) captured 2 + 1 times reach the callback ONCE. -/
+theorem replacement_multiset_overwrite_cex :
+    convArg (.multiset [(.op .variable [.id "a" none] (some "q"), 2),
+      (.op .variable [.id "a" none] none, 1)])
+    = .ok (.multiset [(.var "a", 1)]) := by rfl
+
+/-- `match` / `match_anywhere` convert dot-wildcard bindings only: a sequence binding (a
+`Multiset` or a tuple) makes the conversion raise (`TypeError: unhashable type` /
+`AttributeError`) — reported as a crash, not as a wrong match -/
+theorem match_sequence_binding_raises (k : String) (items : List (MTerm × Nat)) (ts : List MTerm)
+    (rest : List (String × MArg)) :
+    matchConv ((k, .multiset items) :: rest) = .error .typeError ∧
+    matchConv ((k, .tuple ts) :: rest) = .error .attrError := by
+  constructor <;> rfl
+
+end bridge
 
 end PV.C16
